@@ -209,6 +209,13 @@ class GeminiClient:
             # If TOFU is enabled, verify the certificate
             if self.tofu_db:
                 cert = protocol.get_peer_certificate()
+                if cert is None:
+                    # No certificate, or one that cannot be parsed: it can
+                    # neither be checked against a pin nor be pinned
+                    raise ConnectionError(
+                        f"Could not read the certificate presented by "
+                        f"{parsed.hostname}:{parsed.port}"
+                    )
                 if cert:
                     is_valid, message = self.tofu_db.verify(
                         parsed.hostname, parsed.port, cert
@@ -413,6 +420,13 @@ class GeminiClient:
             # If TOFU is enabled, verify the certificate
             if self.tofu_db:
                 cert = protocol.get_peer_certificate()
+                if cert is None:
+                    # No certificate, or one that cannot be parsed: it can
+                    # neither be checked against a pin nor be pinned
+                    raise ConnectionError(
+                        f"Could not read the certificate presented by "
+                        f"{parsed.hostname}:{parsed.port}"
+                    )
                 if cert:
                     is_valid, message = self.tofu_db.verify(
                         parsed.hostname, parsed.port, cert
